@@ -7,6 +7,7 @@ _MODULES = {
     'steps': 'dst.steps',
     'wiring': 'dst.wiring',
     'struct': 'dst.struct',
+    'parallel': 'dst.parallel',
 }
 
 # property -> list of (profile, share of the run budget)
@@ -23,6 +24,7 @@ PROPERTY_PROFILES = {
     'C09': [('struct', 1.0)],
     'C10': [('struct', 1.0)],
     'C11': [('struct', 1.0)],
+    'C13': [('parallel', 1.0)],
     'C12': [('kernel', 0.6), ('steps', 0.2), ('struct', 0.2)],
 }
 
